@@ -45,7 +45,11 @@
 //     appended <dependencyManagement> block; position among siblings and surrounding whitespace free.
 //   - Updates to the <parent> reference itself are not generated (a local parent with a
 //     changed version is no longer found locally; re-reading would need the network).
-//   - Documents in which one groupId:artifactId:type:classifier is declared in two places, dependencies
+//   - One groupId:artifactId:type:classifier declared under two origins IS generated (literal in
+//     <dependencies>, property expression in dependencyManagement / profile / plugin), but updates only
+//     address the first declaration (the one both result.PackageUpdate's type and the writer's lookup
+//     name); the other declaration must keep its effective version. Updates addressed to a later
+//     declaration of the same key are not generated (ambiguous addressing). Dependencies
 //     without <version>, import-scoped BOMs, active-by-default profiles, remote parents:
 //     not generated (addressing of such updates is ambiguous in result.PackageUpdate).
 //   - package.json documents in which two keys of devDependencies/optionalDependencies resolve
@@ -427,7 +431,7 @@ func main() {
 	r.Set("cases_per_family", fams)
 	r.Set("write_error_examples", append([]string{}, errEx...))
 	r.Assume("a Write that returns a non-nil error is accepted (the property forbids only silent non-application)")
-	r.Assume("each groupId:artifactId:type:classifier is declared once per generated pom.xml family; updates never target the <parent> reference")
+	r.Assume("updates address the first declaration of a groupId:artifactId:type:classifier; updates never target the <parent> reference")
 	r.Assume("Maven registry is never contacted: only local parents are generated")
 	cleanup()
 	stopProf()
